@@ -197,7 +197,11 @@ func Run(bodies []func(), choicePrefix []int) *Exec {
 			markStarted(t)
 			t.fn()
 			join.Done()
+			d := doneChan()
 			finish(t)
+			// stay alive until every thread has finished: ThreadSanitizer reports a race with a goroutine that has
+			// already exited only some of the time (its context may have been recycled), with a live one always
+			<-d
 		}()
 	}
 	start()
@@ -223,6 +227,9 @@ func setup(bodies []func(), choicePrefix []int) {
 
 //go:norace
 func markStarted(t *thread) { t.started = true }
+
+//go:norace
+func doneChan() chan struct{} { return done }
 
 //go:norace
 func start() {
